@@ -95,6 +95,23 @@ func genLpm(cfg Config, emit func(string, bool, []string)) {
 				case x < 95:
 					add("keepiter %s %s %d", kinds[r.IntN(3)], d, l)
 					ni++
+					if r.IntN(2) == 0 {
+						// an entry written by this very transaction, an iterator starting at it, then
+						// the entry is removed / rewritten / gets a longer prefix below it right away:
+						// the iterator keeps yielding what it was made from
+						add("ins %s %d %d", d, l, 1000+r.IntN(1000))
+						add("keepiter prefix %s %d", d, l)
+						ni++
+						switch r.IntN(3) {
+						case 0:
+							add("del %s %d", d, l)
+						case 1:
+							add("ins %s %d %d", d, l, 2000+r.IntN(1000))
+						case 2:
+							add("ins %s %d %d", d, maxBytes*8, 3000+r.IntN(1000))
+						}
+						add("iterall %d", ni-1)
+					}
 				case x < 96:
 					// Commit and keep writing through the same Txn
 					add("commitkeep")
